@@ -1,5 +1,6 @@
 import LitexProofs.Wishbone.Interconnect
 import LitexModel.Wishbone.InterconnectSoc
+import LitexProofs.Wishbone.InterconnectSoc
 /-
   C06 — Wishbone interconnect routes each cycle to one slave and answers only its master.
 
@@ -859,5 +860,157 @@ example :
     ((SocBus.out socW1 (SocBus.init socW1) xOut).toS 0).cyc = true := by decide
 
 end SocExamples
+
+/-! ## Address-map glue: what `check_regions_overlap` accepts has pairwise-disjoint decoders
+
+  `SoCBusHandler.add_region` / `alloc_region` admit a region only if `check_regions_overlap` (modelled as computed:
+  `checkRegionsOverlap`, both comparisons on `size_pow2`) returns `None`; `do_finalize` then hands one
+  `SoCRegion.decoder` per slave to `InterconnectShared`/`Crossbar`.  The theorems below discharge the
+  `DisjointDec` hypothesis of the routing theorems for such buses, using C13's interface theorems
+  (`LitexProofs/Soc/AcceptedDisjoint.lean`) through `checkRegionsOverlap_none_iff` and
+  `regionDec_eq_decoderAccepts`. -/
+section GlueThms
+open Litex.Soc
+
+/-- **Accepted ⇒ disjoint windows.**  A region list on which `check_regions_overlap` returns `None` has
+    pairwise-disjoint decoded (power-of-two) windows among its non-linker regions — for every list, every
+    registration order, power-of-two sizes or not. -/
+theorem overlap_check_accepts_disjoint_windows (rs : List Region) (h : checkRegionsOverlap false rs = none) :
+    rs.Pairwise (fun r0 r1 => r0.linker = false → r1.linker = false → WinDisjoint r0 r1) :=
+  accepted_regions_pairwise_disjoint_windows rs ((checkRegionsOverlap_none_iff rs).1 h)
+
+/-- **Reported ⇒ really overlapping** (the check rejects nothing it should accept): a returned pair `(i, k)`
+    names two positions `i < k` whose decoded windows share a byte address, and neither is a linker region
+    unless `check_linker` was requested. -/
+theorem overlap_check_reports_real_pair (cl : Bool) (rs : List Region) (i k : Nat)
+    (h : checkRegionsOverlap cl rs = some (i, k)) :
+    i < k ∧ ∃ r0 r1, rs[i]? = some r0 ∧ rs[k]? = some r1 ∧
+      (cl = true ∨ (r0.linker = false ∧ r1.linker = false)) ∧ ∃ x, r0.InWindow x ∧ r1.InWindow x := by
+  obtain ⟨_, hlt, r0, r1, h0, h1, hov⟩ := firstOverlapFrom_some cl rs 0 i k h
+  refine ⟨hlt, r0, r1, by simpa using h0, by simpa using h1, ?_, ?_⟩
+  · unfold ovPair at hov
+    cases cl <;> cases hl0 : r0.linker <;> cases hl1 : r1.linker <;> simp_all
+  · have p0 := pow2ceil_pos r0.size
+    have p1 := pow2ceil_pos r1.size
+    have hh : ¬ (r0.origin ≥ r1.origin + r1.p2) ∧ ¬ (r1.origin ≥ r0.origin + r0.p2) := by
+      unfold ovPair at hov
+      by_cases a : r0.origin ≥ r1.origin + r1.p2
+      · simp [a] at hov
+      · by_cases b : r1.origin ≥ r0.origin + r0.p2
+        · simp [a, b] at hov
+        · exact ⟨a, b⟩
+    unfold Region.p2 at hh
+    refine ⟨max r0.origin r1.origin, ?_, ?_⟩ <;> unfold Region.InWindow Region.p2 <;> omega
+
+/-- FULL STATEMENT (does not hold, see the witnesses below): a region list accepted by `check_regions_overlap`
+    gives `DisjointDec` for the decoders `do_finalize` builds.
+    Proved under `RegionsDecodable` — no slave region is a linker region (the check skips those), origins aligned
+    on `size_pow2` (enforced by `decoder()`), windows of at least one bus word (C13-decoder-subword) — and for
+    word addresses that fit the bus (`a < 2^(aw - sh)`, every address an `adr` signal can carry). -/
+theorem soc_accepted_disjoint_decoders_partial (c : SocCfg) (rs : List Region) (sh : Nat)
+    (hr : c.regions = pairsOf rs) (hdw : c.dw / 8 = 2 ^ sh) (hsh : sh ≤ c.aw)
+    (hacc : checkRegionsOverlap false rs = none) (hall : RegionsDecodable c.dw rs) :
+    DisjointDec c.m (fun j a => decide (a < 2 ^ (c.aw - sh)) && c.dec j a) := by
+  intro a j k hj hk h1 h2
+  have hm : c.m = rs.length := by simp [SocCfg.m, hr, pairsOf]
+  rw [hm] at hj hk
+  simp only [Bool.and_eq_true, decide_eq_true_eq] at h1 h2
+  rw [socDec_eq c rs hr j hj (hall _ (List.getElem_mem hj)).2.1] at h1
+  rw [socDec_eq c rs hr k hk (hall _ (List.getElem_mem hk)).2.1] at h2
+  exact accepted_index_disjoint c.aw c.dw sh rs hdw hsh hacc hall a h1.1 j k hj hk h1.2 h2.2
+
+/-- **One slave per cycle on a bus built from an accepted map** (shared, crossbar or point-to-point, every state,
+    every input): two slaves driven by the same master never both see `cyc`.  (`_partial`: `RegionsDecodable`
+    and the owner's address within the bus's address range, as above.) -/
+theorem soc_route_one_slave_partial (c : SocCfg) (rs : List Region) (sh : Nat)
+    (hr : c.regions = pairsOf rs) (hdw : c.dw / 8 = 2 ^ sh) (hsh : sh ≤ c.aw)
+    (hacc : checkRegionsOverlap false rs = none) (hall : RegionsDecodable c.dw rs)
+    (s : SocState) (hwf : SocBus.WF c s) (x : BusIn) (j k : Nat) (hj : j < c.m) (hk : k < c.m)
+    (hown : SocBus.owner s j = SocBus.owner s k)
+    (hin : (x.ms (SocBus.owner s j)).adr < 2 ^ (c.aw - sh))
+    (h1 : ((SocBus.out c s x).toS j).cyc = true) (h2 : ((SocBus.out c s x).toS k).cyc = true) : j = k := by
+  have hd := soc_accepted_disjoint_decoders_partial c rs sh hr hdw hsh hacc hall
+  cases s with
+  | idle => simp [SocBus.out] at h1
+  | p2p =>
+    have ht : c.topology = .p2p := hwf.symm
+    have hm : c.m = 1 := ((busTopology_p2p_iff _ _ _ _).1 ht).2.1
+    omega
+  | sh s' =>
+    simp only [SocBus.owner] at hin
+    simp [SocBus.out, Shared.out, Shared.bus, Shared.sel, SocCfg.sh, ShCfg.busAdr, ShCfg.busWidth] at h1 h2
+    exact hd (x.ms s'.grant).adr j k hj hk (by simp [hin, h1.2]) (by simp [hin, h2.2])
+  | xb s' =>
+    simp only [SocBus.owner] at hin hown
+    simp [SocBus.out, Crossbar.out, Crossbar.colReq, Crossbar.sel, SocCfg.xb] at h1 h2
+    rw [← hown] at h2
+    exact hd (x.ms (Crossbar.grant s' j)).adr j k hj hk (by simp [hin, h1.2]) (by simp [hin, h2.2])
+
+end GlueThms
+
+/-! ### Witnesses for the address-map glue -/
+section GlueExamples
+open Litex.Soc
+
+/-- 12 KiB (not a power of two: decoded on 16 KiB) and a 4 KiB region placed in its rounding gap. -/
+def regA : Region := { origin := 0x0, size := 0x3000 }
+def regGap : Region := { origin := 0x3000, size := 0x1000 }
+def regNext : Region := { origin := 0x4000, size := 0x1000 }
+
+/-- The gap placement is reported in BOTH registration orders (each of the two symmetric comparisons is on
+    `size_pow2`; comparing against the declared `size` in either one — seeded change C06-r4m1 — loses one order),
+    the placement after the window is accepted in both. -/
+example :
+    checkRegionsOverlap false [regA, regGap] = some (0, 1) ∧ checkRegionsOverlap false [regGap, regA] = some (0, 1) ∧
+    checkRegionsOverlap false [regA, regNext] = none ∧ checkRegionsOverlap false [regNext, regA] = none := by
+  decide +kernel
+
+/-- Why the check matters: if the gap placement reached the bus, a cycle at byte 0x3000 (word 0xc00) would be
+    presented to both slaves. -/
+example :
+    let c : SocCfg := { n := 2, regions := pairsOf [regA, regGap], kind := .shared, reg := false, timeout := none,
+                        dw := 32, aw := 32 }
+    let x : BusIn := { ms := fun _ => { cyc := true, stb := true, adr := 0xc00 }, ss := fun _ => {} }
+    ((SocBus.out c (SocBus.init c) x).toS 0).cyc = true ∧ ((SocBus.out c (SocBus.init c) x).toS 1).cyc = true := by
+  decide +kernel
+
+/-- Non-vacuity of `soc_route_one_slave_partial`: an accepted three-region map with a non-power-of-two region; an
+    address in the rounding gap reaches slave 0 only, the next window slave 1 only, an unmapped one nobody. -/
+example :
+    let rs : List Region := [regA, regNext, { origin := 0x80000000, size := 0x600, cached := false }]
+    let c : SocCfg := { n := 2, regions := pairsOf rs, kind := .crossbar, reg := false, timeout := none, dw := 32, aw := 32 }
+    checkRegionsOverlap false rs = none ∧
+    (∀ r ∈ rs, r.linker = false ∧ r.decode = true ∧ r.aligned = true ∧ 32 / 8 ≤ r.p2) ∧
+    (List.range 3).map (fun j => c.dec j 0xc00) = [true, false, false] ∧
+    (List.range 3).map (fun j => c.dec j 0x1000) = [false, true, false] ∧
+    (List.range 3).map (fun j => c.dec j 0x2000) = [false, false, false] := by
+  decide +kernel
+
+/-- **Negative witness** for the full statement without "no linker region": `check_regions_overlap` skips every
+    pair with a linker region, so a slave on a linker region and a slave on an ordinary region at the same
+    addresses are both accepted and both decode word 0. -/
+example :
+    let rs : List Region := [{ origin := 0, size := 0x1000, linker := true }, { origin := 0, size := 0x1000 }]
+    let c : SocCfg := { n := 2, regions := pairsOf rs, kind := .shared, reg := false, timeout := none, dw := 32, aw := 32 }
+    let x : BusIn := { ms := fun _ => { cyc := true, stb := true, adr := 0 }, ss := fun _ => {} }
+    checkRegionsOverlap false rs = none ∧ checkRegionsOverlap true rs = some (0, 1) ∧
+    ((SocBus.out c (SocBus.init c) x).toS 0).cyc = true ∧ ((SocBus.out c (SocBus.init c) x).toS 1).cyc = true := by
+  decide +kernel
+
+/-- A whole build script: two masters, a 12 KiB slave at 0, then an auto-allocated (origin=None) 4 KiB slave.  The
+    allocator steps over the rounding gap: the second slave lands at 0x4000, not 0x3000.  Explicitly placing
+    it at 0x3000 is rejected at that call (position 3). -/
+example :
+    (glueBuild 32 32 .shared true (some 8)
+      [.master, .master, .slave (some 0) 0x3000 true false, .slave none 0x1000 true false]).regions?
+      = some [(0, 0x3000), (0x4000, 0x1000)] ∧
+    (glueBuild 32 32 .shared true (some 8)
+      [.master, .master, .slave (some 0) 0x3000 true false, .slave (some 0x3000) 0x1000 true false]).rejectedAt?
+      = some 3 := by
+  constructor
+  · decide +kernel
+  · decide +kernel
+
+end GlueExamples
 
 end Litex.C06
